@@ -68,7 +68,10 @@ type Beh struct {
 		Kind string `json:"kind"`
 		From int    `json:"from"`
 	} `json:"sweep"`
-	Sweep     string `json:"-"` // "byte" | "trunc" | ""
+	Kind         string `json:"kind,omitempty"` // "flood": only the buffer bound and liveness are judged
+	Buffered     int    `json:"buffered"`
+	AsisBuffered int    `json:"asis_buffered"`
+	Sweep        string `json:"-"` // "byte" | "trunc" | ""
 	SweepFrom int    `json:"-"`
 }
 
@@ -320,7 +323,9 @@ func runBehReal(b *Beh, damage func(g *rig) func([]byte, Step) [][]byte) runResu
 	defer g.close()
 	em.dir = g.dir
 	if damage != nil {
-		em.damage = damage(g)
+		if em.damage = damage(g); em.damage == nil {
+			return runResult{status: "inconclusive", detail: "no keys of the sending side"}
+		}
 	}
 	_, _, _, maxBody, ok := uasc.VerifActive(g.sendCh)
 	if !ok || maxBody == 0 {
@@ -356,7 +361,11 @@ func runBehReal(b *Beh, damage func(g *rig) func([]byte, Step) [][]byte) runResu
 	// after encryption); the chunks of a message carry the numbers in between (+1, gopcua's wrap).
 	_, _, cur, _, _ := uasc.VerifActive(g.sendCh)
 	id := 0
+	lastMsg := b.Chunks[len(b.Chunks)-1].Msg // a behaviour that ends early (framing lost, closed) needs no more
 	for m, pm := range b.Plan {
+		if m+1 > lastMsg {
+			break
+		}
 		if pm.Ab || pm.Cut != pm.N {
 			return runResult{status: "inconclusive", detail: "plan needs the reference sender"}
 		}
@@ -383,7 +392,7 @@ func runBehReal(b *Beh, damage func(g *rig) func([]byte, Step) [][]byte) runResu
 		}
 	}
 	sent := g.s.sentSnapshot()[n0:]
-	if len(sent) != len(b.Chunks) {
+	if len(sent) < len(b.Chunks) || (contractTerm(b) == "" && len(sent) != len(b.Chunks)) {
 		return runResult{status: "inconclusive", detail: fmt.Sprintf("sender wrote %d chunks, plan has %d", len(sent), len(b.Chunks))}
 	}
 	first := bi.seq[1]
